@@ -200,9 +200,33 @@ WEIRD = [
 
 def gen_case(seed, tier, index=0):
     rng = Rng(seed, "c16")
-    fam = rng.wpick([(3, "broken"), (3, "weird"), (6, "faults")])
+    fam = rng.wpick([(3, "broken"), (3, "weird"), (6, "faults"), (1, "pipes"), (1, "history")])
     files = _base_files()
     case = {"prop": PROP, "seed": seed, "family": fam, "config": [], "must_be_2": False}
+    if fam == "pipes":
+        # whoever reads the command's output has gone away (reuse lint | head -0; 2>&1 | true) while the files make the
+        # workers talk: the command still ends with one of its exit statuses, not by a signal, not never
+        for i in range(rng.randint(3, 12)):
+            files.append({"path": f"src/odd{i}.py", "content": "# SPDX-FileCopyrightText: 2020 J\n# SPDX-License-Identifier: MIT AND\n"})
+        cmds = rng.sample([["lint"], ["lint", "--json"], ["spdx"], ["lint-file", "src/odd0.py", "src/a.py"], ["lint", "--lines"]], 3)
+        variants = []
+        for st in _steps_for(rng, cmds, pool_p=0.7):
+            st[rng.pick(["stdout", "stderr"])] = "epipe"
+            variants.append({"hashseed": rng.randrange(8), "steps": [st]})
+        case.update(trigger="pipes", world={"files": files}, variants=variants)
+        return case
+    if fam == "history":
+        # an annotate run that dies while writing, then the same commands again: what the first left behind (a temporary
+        # file, half a header) is input like any other
+        tgt = rng.pick(["src/b.c", "src/a.py", "docs/c.md"])
+        d = posixpath.dirname(tgt)
+        first = {"argv": ["--no-multiprocessing", "annotate", "-c", "Jane", "-l", "MIT", tgt], "inject": True, "buffer_size": 16,
+                 "faults": [{"op": "write", "path_glob": d + "/*", "errno": rng.pick(["ENOSPC", "EFBIG", "EIO"]), "after": rng.pick([0, 10, 40, 90])}]}
+        later = [["annotate", "-c", "Jane", "-l", "MIT", tgt], ["lint"], ["annotate", "-c", "Bob", "-l", "MIT", "--skip-unrecognised", "-r", d],
+                 ["lint-file", tgt], ["spdx"]]
+        steps = [first] + _steps_for(rng, [later[0]] + rng.sample(later[1:], 2), pool_p=0.3)
+        case.update(trigger="history:torn-annotate", world={"files": files}, variants=[{"hashseed": rng.randrange(8), "steps": steps}])
+        return case
     if fam == "broken":
         if rng.chance(0.15):
             where = rng.pick(["REUSE.toml", "REUSE.toml", "src/REUSE.toml", "src/core/deep/REUSE.toml"])
@@ -351,11 +375,31 @@ def oracle(case, results):
     vs = []
     present = {f["path"] for f in case["world"]["files"]}
     cfg_present = [c for c in case.get("config", []) if c in present]
+    if case.get("family") in ("pipes", "history"):
+        for vi, var in enumerate(case["variants"]):
+            for st, rec in zip(var["steps"], results[vi]["records"]):
+                if st.get("inject"):
+                    continue  # the step that plants the failure: its own outcome is not judged
+                cmd = [a for a in st["argv"] if a != "--no-multiprocessing" and a not in GLOBAL_FLAGS]
+                what = case["family"] + (":" + "+".join(k for k in ("stdout", "stderr") if st.get(k)) if case["family"] == "pipes" else "")
+                if rec.get("killed_by"):
+                    vs.append({"sig": f"C16/killed-by-signal/{rec['killed_by']}/{cmd[0]}", "detail": f"argv={st['argv']} {what}"})
+                elif rec.get("timeout"):
+                    vs.append({"sig": f"C16/no-termination/{cmd[0]}", "detail": f"argv={st['argv']} {what}"})
+                elif rec.get("exc"):
+                    e = rec["exc"]
+                    vs.append({"sig": f"C16/unhandled/{e['type']}@{e['where']}", "detail": f"command {' '.join(cmd)}; {what}; fired={rec.get('fired')}\n{e['tb'][-900:]}"})
+                elif rec.get("exit") not in (0, 1, 2):
+                    vs.append({"sig": f"C16/exit-status/{rec.get('exit')}/{cmd[0]}", "detail": f"argv={st['argv']} {what}"})
+        return vs
     for vi, var in enumerate(case["variants"]):
         st = var["steps"][0]
         rec = results[vi]["records"][0]
         cmd = [a for a in st["argv"] if a != "--no-multiprocessing" and a not in GLOBAL_FLAGS]
         name = cmd[0]
+        if rec.get("killed_by"):
+            vs.append({"sig": f"C16/killed-by-signal/{rec['killed_by']}/{name}", "detail": f"argv={st['argv']}"})
+            continue
         if rec.get("timeout"):
             vs.append({"sig": f"C16/no-termination/{name}", "detail": f"argv={st['argv']} trigger={case.get('trigger')}"})
             continue
